@@ -251,7 +251,8 @@ def _run(t: str, s: int) -> Result:
     # target sweep: every format of the target (all modes x orderings) against natural input formats for copy-like shapes
     from . import kset
 
-    sweep_inputs = {"d0s1s2"} if t == "quick" else None
+    # quick: two operand formats (a compressed level below a compressed one / below a dense one, whose fibres may be empty)
+    sweep_inputs = {"d0s1s2", "d0d1s2"} if t == "quick" else None
     for text, fm in list(kset.target_sweep()) + list(kset.target_sweep4()):
         if t == "quick" and "l)" not in text and (text != "a(i,j,k) = b(i,j,k)" or fm["b"] not in sweep_inputs):
             continue
